@@ -619,16 +619,18 @@ class DictReplayBuffer(ReplayBuffer):
     ) -> None:
         # Copy to avoid modification by reference
         for key in self.observations.keys():
+            obs_ = np.array(obs[key])
             # Reshape needed when using multiple envs with discrete observations
             # as numpy cannot broadcast (n_discrete,) to (n_discrete, 1)
             if isinstance(self.observation_space.spaces[key], spaces.Discrete):
-                obs[key] = obs[key].reshape((self.n_envs,) + self.obs_shape[key])
-            self.observations[key][self.pos] = np.array(obs[key])
+                obs_ = obs_.reshape((self.n_envs,) + self.obs_shape[key])
+            self.observations[key][self.pos] = obs_
 
         for key in self.next_observations.keys():
+            next_obs_ = np.array(next_obs[key])
             if isinstance(self.observation_space.spaces[key], spaces.Discrete):
-                next_obs[key] = next_obs[key].reshape((self.n_envs,) + self.obs_shape[key])
-            self.next_observations[key][self.pos] = np.array(next_obs[key])
+                next_obs_ = next_obs_.reshape((self.n_envs,) + self.obs_shape[key])
+            self.next_observations[key][self.pos] = next_obs_
 
         # Reshape to handle multi-dim and discrete action spaces, see GH #970 #1392
         action = action.reshape((self.n_envs, self.action_dim))
